@@ -33,7 +33,8 @@ LEVEL_TEXT = ("Exploration: thousands of collinear trees (chains of 2-40 nodes, 
               "disjoint / tangent / overlapping; compartments exactly as long as the larger end "
               "radius up to 50x longer; lines in random and axis-aligned directions, far from the "
               "origin) at every analytic level 3..9 and the named levels, plus all generic shape "
-              "classes at levels 1-2. Held = held on those executions.")
+              "classes at levels 1-2. Held = held on those executions."
+              "The same skeleton is measured again with other radii, as a second tree object and after an in-place edit through node handles; half of the trees carry a file source.")
 LEVEL_NOTE = ("Levels 5-9 on a root with two opposite arms run the library's sampled "
               "cone-cone term (identically zero there); only a few such cases run per shard because "
               "each costs seconds. Tolerance rtol 2e-4 (the library accumulates in float32). "
